@@ -196,7 +196,9 @@ fn d_parse(toks: &[&str], pos: &mut usize) -> Option<E> {
 
 // ------------------------------------------------------------------ layout decoration
 
-const DECOR: [&str; 19] = [
+const DECOR: [&str; 29] = [
+    // the shortest comments there are, and comments whose body looks like something else
+    "//\n", "//\r\n", "//\t\n", "//x\n", "//*\n", "// */\n", "///\n", "/* */", "/*\n*/", "/*/ */",
     " ", "\t", "\r", "\n", "\r\n", "/**/", "/* x */", "/* ** / */", "/* 👍 ž */", "/* a\n   b\n*/", "// c\n", "// 👍\n", "  ", "/***/", "/** doc **/", "/* 👍 **/",
     "/****\n * banner\n ****/", "/* a // b */", "// /* not open\n",
 ];
@@ -231,6 +233,13 @@ pub fn decorate(toks: &[String], t: &mut Tape) -> String {
         s.push_str(tok);
     }
     dec(&mut s, t, toks.last().map(|x| x.as_str()));
+    // a line comment that the end of the input closes instead of a line break
+    if t.chance(24) {
+        if s.ends_with('/') {
+            s.push(' ');
+        }
+        s.push_str(["//", "// end", "//👍", "// */"][t.pick(4)]);
+    }
     s
 }
 
